@@ -47,7 +47,7 @@ type script struct {
 
 type world struct {
 	gw        *e2e.Gateway
-	infos     []*clusters.ClusterInfo // every cluster of the world (for isolate)
+	infos     []*clusters.ClusterInfo  // every cluster of the world (for isolate)
 	ups       map[string]*e2e.Upstream // cluster -> its upstream
 	mu        sync.Mutex
 	scripts   map[string]*script
